@@ -2,10 +2,10 @@
 from qty_common import QTY_TRUSTED
 
 CFG = dict(
-    lean_modules=["NumbatModel.Props.C11", "NumbatModel.Inst.Real"],
+    lean_modules=["NumbatModel.Props.C11", "NumbatModel.Inst.Real", "NumbatModel.Oblig.UnitTable"],
     driver="drv_c11",
     harness="c11",
-    gens=[],
+    gens=["gen_units:generate"],
     level="proof",
     trusted_base=QTY_TRUSTED,
     assumptions=[
